@@ -11,10 +11,11 @@
    constructor is given (a C int, as Z), every finite history of calls.
 
    This file contains only pinned statements, each closed by a lemma of coq/C/.
-   OBLIGATIONS: C12_history_refines_dict C12_step_refines C12_setitem C12_delitem C12_getitem C12_contains C12_len C12_iteration_sorted C12_iter_fail_fast C12_modification_makes_iterators_stale C12_iter_new C12_iter_nth C12_nonvacuous *)
+   OBLIGATIONS: C12_history_refines_dict C12_step_refines C12_setitem C12_delitem C12_getitem C12_contains C12_len C12_iteration_sorted C12_iter_fail_fast C12_modification_makes_iterators_stale C12_iter_new C12_iter_nth C12_nonvacuous C12_reachable_states_related C12_reachable_tree_invariant C12_reachable_iterators C12_history_iteration_sorted C12_any_modification_then_next_raises C12_modc_monotone C12_keys_items_whole_list C12_wrapper_update C12_wrapper_clear C12_wrapper_copy *)
 From Coq Require Import List ZArith NArith Bool.
 From BPT Require Import Common.Base Common.AMap Rust.Tree C.Node C.Tree C.Run C.Abs C.PInv
   C.IterDefs C.Spec C.StepDefs C.StepCore C.TreeProofs C.IterProofs C.StepAll C.Examples.
+From BPT Require Import Extra.CExtra.
 Import ListNotations.
 
 (* Any sequence of item assignment, lookup, deletion, membership test, len, keys(), items(),
@@ -128,3 +129,77 @@ Proof. exact iter_next_ok. Qed.
    emptied leaf, an overwrite through an equal key object, a stale and a surviving
    iterator and every wrapper method, evaluated in Coq *)
 Definition C12_nonvacuous := (ex_matches_spec, ex_keeps_first_key, ex_fail_fast, ex_shape).
+
+(* every state reached by a history is related (R) to the specification state: this discharges the hypotheses R / CInv / it_stamp <= modc / it_at of the per-operation theorems above for all reachable states *)
+Theorem C12_reachable_states_related : forall (capacity : Z) (ops : list op),
+  R (fst (run (fst (st_init capacity)) ops)) (fst (spec_run (fst (a_init capacity)) ops)).
+Proof. exact CExtra.reachable_states_related. Qed.
+
+Theorem C12_reachable_tree_invariant : forall (capacity : Z) (ops : list op) (t : ctree),
+  let s := fst (run (fst (st_init capacity)) ops) in
+  st_tree s = Some t \/ st_copy s = Some t -> CInv t.
+Proof. exact CExtra.reachable_tree_invariant. Qed.
+
+Theorem C12_reachable_iterators : forall (capacity : Z) (ops : list op) (t : ctree) h it,
+  let s := fst (run (fst (st_init capacity)) ops) in
+  st_tree s = Some t -> it_lookup (st_iters s) h = Some it ->
+  it_stamp it <= modc t /\
+  (it_stamp it = modc t -> exists p, it_at (abs (root t)) (it_cur it) (it_idx it) p).
+Proof. exact CExtra.reachable_iterators. Qed.
+
+(* every keys() / items() answer of every history is strictly ascending (sorted_answer is defined in Extra/CExtra.v) *)
+Theorem C12_history_iteration_sorted : forall (capacity : Z) (ops : list op),
+  Forall sorted_answer (snd (run (fst (st_init capacity)) ops)).
+Proof. exact CExtra.history_iteration_sorted. Qed.
+
+(* fail-fast for ANY call that changes the entries, wrapper methods (clear, pop, popitem, setdefault, update) included *)
+Theorem C12_any_modification_then_next_raises :
+  forall (s : cstate) (a : astate) (o : op) (t t' : ctree) h it, R s a -> o <> WSwap ->
+  st_tree s = Some t -> it_lookup (st_iters s) h = Some it ->
+  st_tree (fst (step s o)) = Some t' -> tree_map t' <> tree_map t ->
+  snd (step (fst (step s o)) (OItNext h)) = URuntimeError.
+Proof. exact CExtra.any_modification_then_next_raises. Qed.
+
+(* the modification counter never decreases and strictly grows whenever the entries change *)
+Theorem C12_modc_monotone : forall (s : cstate) (a : astate) (o : op) (t t' : ctree), R s a -> o <> WSwap ->
+  st_tree s = Some t -> st_tree (fst (step s o)) = Some t' ->
+  modc t <= modc t' /\ (tree_map t' <> tree_map t -> modc t < modc t').
+Proof. exact CExtra.modc_monotone. Qed.
+
+(* keys() / items() as whole lists, with the exact reference-count effect *)
+Theorem C12_keys_items_whole_list : forall (s : cstate) (t : ctree),
+  st_tree s = Some t -> CInv t ->
+  (let s' := fst (step s OKeys) in
+   snd (step s OKeys) = UKeys (map fst (tree_map t)) /\
+   st_tree s' = Some t /\ st_copy s' = st_copy s /\ st_iters s' = st_iters s /\
+   st_held s' = map fst (tree_map t) /\
+   forall o, rc_get (st_rc s') o =
+     (rc_get (st_rc s) o - cnt (map kid (st_held s)) o + cnt (map kid (st_held s')) o)%Z) /\
+  (let s' := fst (step s OItems) in
+   snd (step s OItems) = UItems (tree_map t) /\
+   st_tree s' = Some t /\ st_copy s' = st_copy s /\ st_iters s' = st_iters s /\
+   st_held s' = items_refs (tree_map t) /\
+   forall o, rc_get (st_rc s') o =
+     (rc_get (st_rc s) o - cnt (map kid (st_held s)) o + cnt (map kid (st_held s')) o)%Z).
+Proof. exact CExtra.keys_items_whole_list. Qed.
+
+Theorem C12_wrapper_update : forall l t rc, CInv t ->
+  exists t' rc', w_update t rc l = Ok (t', rc') /\ CInv t' /\
+    tree_map t' = m_update_all (tree_map t) l /\
+    modc t <= modc t' /\ (l <> [] -> modc t < modc t') /\
+    (forall o, rc_get rc' o =
+       rc_get rc o + cnt (prefs (abs (root t'))) o - cnt (prefs (abs (root t))) o)%Z.
+Proof. exact CExtra.wrapper_update_spec. Qed.
+
+Theorem C12_wrapper_clear : forall fuel t rc, CInv t -> length (tree_map t) < fuel ->
+  exists t' rc', w_clear fuel t rc = Ok (t', rc') /\ CInv t' /\ tree_map t' = [] /\
+    modc t <= modc t' /\ (tree_map t <> [] -> modc t < modc t') /\
+    (tree_map t = [] -> t' = t /\ rc' = rc) /\
+    (forall o, rc_get rc' o =
+       rc_get rc o + cnt (prefs (abs (root t'))) o - cnt (prefs (abs (root t))) o)%Z.
+Proof. exact CExtra.wrapper_clear_spec. Qed.
+
+Theorem C12_wrapper_copy : forall t rc, CInv t ->
+  exists nt rc', w_copy t rc = Ok (Some nt, rc') /\ CInv nt /\ tree_map nt = tree_map t /\
+    (forall o, rc_get rc' o = rc_get rc o + cnt (prefs (abs (root nt))) o)%Z.
+Proof. exact CExtra.wrapper_copy_spec. Qed.
